@@ -335,6 +335,7 @@ class Engine:
         ta = a.t
         if is_app_of(ta, 'hexdec') and ('canon', ta.arg(0).get_id()) in self.P.axdone: return StrV(t=ta.arg(0))
         t = hexenc(ta)
+        self.P.g.setdefault('derived_strs', []).append(t)     # a free string the model makes equal to it is realised through it
         self.fixed_len_ax(ta)
         self.ax(('hexenc', t.get_id()), slen(t) == 2 * slen(ta), z3.ULE(slen(ta), slen(t)), validhex(t), hexdec(t) == ta)
         return StrV(t=t)
@@ -358,6 +359,7 @@ class Engine:
             import hashlib
             return StrV(c=hashlib.sha256(a.c.encode('latin-1')).digest().decode('latin-1'))
         t = sha256(a.t)
+        self.P.g.setdefault('derived_strs', []).append(t)
         self.ax(('sha', t.get_id()), slen(t) == 32)
         return StrV(t=t)
     def sbyte(self, a, i):
